@@ -45,3 +45,36 @@ fn c12_round_exact_or_big() {
     kani::cover!(matches!(r, Ok(MV::Int(1))) && which == 1 && f < 1.0);
     core::mem::forget(r);
 }
+
+fn key_half<'a>(v: MV) -> ValXs<'a, MV> {
+    match v {
+        MV::Int(i) => box_once(Ok(MV::Int(i >> 1))),
+        _ => box_once(Err(Exn::from(Error::new(v)))),
+    }
+}
+
+//@ tier: thorough
+//@ timeout: 2400
+//@ inst: V = MV; elements are machine integers, the key filter is `. / 2` (so 2k and 2k+1 tie)
+//@ funcs: jaq_std::sort_by::<MV>
+//@ bounds: arrays of exactly 2 elements, each any integer in 0..=7
+//@ asserts: sort_by is a stable sort by key: the output is ordered by key and elements with equal keys keep their input order (ties are NOT broken by the element's own value)
+#[kani::proof]
+#[kani::unwind(6)]
+fn c12_sort_by_stable_2() {
+    let (a, b): (u8, u8) = (kani::any(), kani::any());
+    kani::assume(a <= 7 && b <= 7);
+    let mut xs = [MV::Int(a as isize), MV::Int(b as isize)];
+    let r = sort_by(&mut xs, key_half);
+    assert!(r.is_ok());
+    let out = |k: usize| if let MV::Int(i) = xs[k] { i as u8 } else { 255 };
+    let (o0, o1) = (out(0), out(1));
+    if (a >> 1) <= (b >> 1) {
+        assert!(o0 == a && o1 == b);
+    } else {
+        assert!(o0 == b && o1 == a);
+    }
+    kani::cover!(a >> 1 == b >> 1 && a > b);
+    kani::cover!(a >> 1 > b >> 1);
+    core::mem::forget((r, xs));
+}
